@@ -1,7 +1,213 @@
 import GluonModel.Sexp
+import GluonModel.GcAccount
+import GluonModel.StackVerify
+import GluonModel.CallStack
 open GluonModel
 
+namespace C07
+
+/-! gc -/
+open GluonModel.GcAccount in
+def parseMarks : List Sexp → List Bool
+  | [] => []
+  | .atom "1" :: r => true :: parseMarks r
+  | _ :: r => false :: parseMarks r
+
+open GluonModel.GcAccount in
+def parseOp : Sexp → Option Op
+  | .list [.atom "a", n] => n.toNat?.map Op.alloc
+  | .list [.atom "i", n] => n.toNat?.map Op.allocIgnore
+  | .list [.atom "ac", .list ms, n] => n.toNat?.map (Op.allocCollect (parseMarks ms))
+  | .list [.atom "c", .list ms] => some (Op.collect (parseMarks ms))
+  | .list [.atom "l", n] => n.toNat?.map Op.setLimit
+  | _ => none
+
+open GluonModel.GcAccount in
+def renderRes : Res → String
+  | .ok => "ok"
+  | .oom l n => s!"(oom {l} {n})"
+
+open GluonModel.GcAccount in
+def runGc (g : Gc) : List Sexp → List String → Option (Gc × List String)
+  | [], acc => some (g, acc.reverse)
+  | x :: xs, acc =>
+    match parseOp x with
+    | none => none
+    | some op =>
+      let (g', r) := step g op
+      runGc g' xs (s!"({renderRes r} {g'.allocated})" :: acc)
+
+/-! verify -/
+open GluonModel.StackVerify in
+def parseInstrs : List Sexp → List Nat → Option (List Instr)
+  | [], _ => some []
+  | x :: xs, splits =>
+    let one (i : Instr) := (parseInstrs xs splits).map (i :: ·)
+    match x with
+    | .list [.atom "pushc"] => one .pushc
+    | .list [.atom "push", n] => n.toNat?.bind fun n => one (.push n)
+    | .list [.atom "call", n] => n.toNat?.bind fun n => one (.call n)
+    | .list [.atom "tailcall", n] => n.toNat?.bind fun n => one (.tailcall n)
+    | .list [.atom "construct", n] => n.toNat?.bind fun n => one (.construct n)
+    | .list [.atom "new"] => one .new
+    | .list [.atom "get"] => one .get
+    | .list [.atom "split"] =>
+      match splits with
+      | k :: ks => (parseInstrs xs ks).map (Instr.split k :: ·)
+      | [] => none
+    | .list [.atom "test"] => one .test
+    | .list [.atom "jump", n] => n.toNat?.bind fun n => one (.jump n)
+    | .list [.atom "cjump", n] => n.toNat?.bind fun n => one (.cjump n)
+    | .list [.atom "pop", n] => n.toNat?.bind fun n => one (.pop n)
+    | .list [.atom "slide", n] => n.toNat?.bind fun n => one (.slide n)
+    | .list [.atom "makeclosure", n] => n.toNat?.bind fun n => one (.makeclosure n)
+    | .list [.atom "closeclosure", n] => n.toNat?.bind fun n => one (.closeclosure n)
+    | .list [.atom "binop"] => one .binop
+    | .list [.atom "ret"] => one .ret
+    | .list [.atom "closedata", _] => one .closedata
+    | _ => none
+
+def natList (xs : List Sexp) : Option (List Nat) := xs.mapM Sexp.toNat?
+
+open GluonModel.StackVerify in
+def parseFn : Sexp → Option Fn
+  | .list [.atom "fn", a, m, .list ins, .list sp] => do
+    let a ← a.toNat?
+    let m ← m.toNat?
+    let sp ← natList sp
+    let code ← parseInstrs ins sp
+    pure ⟨a, m, code⟩
+  | _ => none
+
+/-- Heights (per certificate) before every call / tail call / return instruction, in pc order. -/
+open GluonModel.StackVerify in
+def exitHeights (f : Fn) (hs : List (Option Nat)) : List String :=
+  (List.range f.code.length).filterMap fun pc =>
+    match f.code[pc]?, hs[pc]? with
+    | some (.call _), some (some h) => some s!"({pc} {h})"
+    | some (.tailcall _), some (some h) => some s!"({pc} {h})"
+    | some .ret, some (some h) => some s!"({pc} {h})"
+    | _, _ => none
+
+open GluonModel.StackVerify in
+def handleVerify (f : Fn) : String :=
+  match infer f with
+  | none => "(rejected infer)"
+  | some hs =>
+    -- the declared bound is compared by the harness side; here: is the function safe under the
+    -- *tightest* bound, and what is that bound
+    let peak := peakOf f hs
+    let tight : Fn := { f with max := peak }
+    if check tight hs then
+      let declared := if check f hs then "within" else "exceeds"
+      s!"(ok {peak} {declared} {if forward f then "fwd" else "back"} ({" ".intercalate (exitHeights f hs)}))"
+    else "(rejected check)"
+
+/-! call stack -/
+open GluonModel.CallStack in
+def parseTbl : List Sexp → Option Tbl
+  | [] => some []
+  | .list [a, m] :: r => do
+    let a ← a.toNat?
+    let m ← m.toNat?
+    let t ← parseTbl r
+    pure (⟨a, m⟩ :: t)
+  | _ => none
+
+open GluonModel.CallStack in
+inductive Script where
+  | ev (e : Ev)
+  | rep (n : Nat) (body : List Script)
+
+open GluonModel.CallStack in
+partial def parseScript : Sexp → Option Script
+  | .list [.atom "p", k] => k.toNat?.map fun k => .ev (.push k)
+  | .list [.atom "q", k] => k.toNat?.map fun k => .ev (.pop k)
+  | .list [.atom "c", f, h, n] => do
+    let f ← f.toNat?; let h ← h.toNat?; let n ← n.toNat?
+    pure (.ev (.call ⟨f, h⟩ n))
+  | .list [.atom "t", f, h, n] => do
+    let f ← f.toNat?; let h ← h.toNat?; let n ← n.toNat?
+    pure (.ev (.tailcall ⟨f, h⟩ n))
+  | .list [.atom "r"] => some (.ev (.ret none))
+  | .list [.atom "r", f, h] => do
+    let f ← f.toNat?; let h ← h.toNat?
+    pure (.ev (.ret (some ⟨f, h⟩)))
+  | .list (.atom "rep" :: n :: body) => do
+    let n ← n.toNat?
+    let b ← body.mapM parseScript
+    pure (.rep n b)
+  | _ => none
+
+open GluonModel.CallStack in
+structure Acc where
+  st : St
+  peakValues : Nat
+  peakDepth : Nat
+  steps : Nat
+
+open GluonModel.CallStack in
+mutual
+partial def runScript (tbl : Tbl) (limit : Nat) (a : Acc) : List Script → Except Err Acc
+  | [] => .ok a
+  | .ev e :: rest =>
+    match step tbl limit a.st e with
+    | .ok s => runScript tbl limit
+        ⟨s, max a.peakValues s.values, max a.peakDepth s.frames.length, a.steps + 1⟩ rest
+    | .error e => .error e
+  | .rep n body :: rest =>
+    match runRep tbl limit a n body with
+    | .ok a => runScript tbl limit a rest
+    | .error e => .error e
+partial def runRep (tbl : Tbl) (limit : Nat) (a : Acc) : Nat → List Script → Except Err Acc
+  | 0, _ => .ok a
+  | n + 1, body =>
+    match runScript tbl limit a body with
+    | .ok a => runRep tbl limit a n body
+    | .error e => .error e
+end
+
+open GluonModel.CallStack in
+def renderErr : Err → String
+  | .stackOverflow => "overflow"
+  | .stuck => "stuck"
+  | .bound => "bound"
+
+end C07
+
+open C07 in
 def handle : List Sexp → String
-  | _ => "unimplemented"
+  | [.atom "gc", hdr, limit, .list ops] =>
+    match hdr.toNat?, limit.toNat? with
+    | some hdr, some limit =>
+      match runGc (GluonModel.GcAccount.Gc.new hdr limit) ops [] with
+      | some (g, rs) => s!"(({" ".intercalate rs}) {g.allocated} {g.collectLimit} {g.objs.length})"
+      | none => "bad-request"
+    | _, _ => "bad-request"
+  | [.atom "firstoom", l, .list ns] =>
+    match l.toNat?, natList ns with
+    | some l, some ns =>
+      match GluonModel.GcAccount.firstOom l ns with
+      | some n => s!"(oom {l} {n})"
+      | none => "ok"
+    | _, _ => "bad-request"
+  | [.atom "verify", f] =>
+    match parseFn f with
+    | some f => handleVerify f
+    | none => "bad-request"
+  | [.atom "stack", limit, .list tbl, .list evs] =>
+    match limit.toNat?, parseTbl tbl, evs.mapM parseScript with
+    | some limit, some tbl, some sc =>
+      match runScript tbl limit ⟨GluonModel.CallStack.St.base, 0, 1, 0⟩ sc with
+      | .ok a => s!"(ok {a.st.values} {a.st.frames.length} {a.peakDepth})"
+      | .error e => renderErr e
+    | _, _, _ => "bad-request"
+  | [.atom "intr", k, segs] =>
+    match k.toNat?, segs.toNat? with
+    | some k, some segs =>
+      let r := GluonModel.CallStack.execute (fun i => decide (k ≤ i)) 0 segs
+      s!"({r.1} {if r.2 == .interrupted then "interrupted" else "finished"})"
+    | _, _ => "bad-request"
+  | _ => "bad-request"
 
 def main : IO Unit := driverLoop handle
